@@ -138,15 +138,23 @@ func c12Check(l *explore.Local, _ struct{}, c c12Case) *explore.Fail {
 	}
 	if c.Path != nil {
 		for _, ev := range c.Path {
-			f, prune := p.apply(ev)
-			l.Trans(1)
-			if f != nil {
-				return f
+			n := 1
+			if ev.K == "ticks" {
+				n, ev = ev.N, c12Ev{K: "tick"}
 			}
-			if prune {
-				return nil
+			for i := 0; i < n; i++ {
+				f, prune := p.apply(ev)
+				l.Trans(1)
+				if f != nil {
+					return f
+				}
+				if prune {
+					return nil
+				}
 			}
 		}
+		l.Eval(1)
+		l.Outcome(uint64(p.impl.ReadTIMA()) | uint64(p.mod.Phase)<<8 | uint64(c.Start.TMA)<<16)
 		return nil
 	}
 	path := make([]c12Ev, 0, c.Depth)
@@ -305,7 +313,7 @@ func c12OverflowTicks(s c12Start, ticks int) []int {
 func init() {
 	register("C12", "model_checking", func(c *Ctx) {
 		if c.R != nil {
-			c.R.Rule = "depth-first enumeration of every event sequence over {tick, wDIV, wTIMA v, wTMA v, wTAC t} (16 events) up to the depth and deviation (non-tick event) bound from every start state, each step executed on the real timer.Timer and compared (DIV, TIMA, TMA, TAC read-back and the interrupt result) with the cycle-indexed reference timer; states = search-tree nodes (no de-duplication), a case = one start state; long runs place 1-2 writes at every position around every overflow"
+			c.R.Rule = "depth-first enumeration of every event sequence over {tick, wDIV, wTIMA v, wTMA v, wTAC t} (16 events) up to the depth and deviation (non-tick event) bound from every start state, each step executed on the real timer.Timer and compared (DIV, TIMA, TMA, TAC read-back and the interrupt result) with the cycle-indexed reference timer; states = search-tree nodes (no de-duplication), a case = one start state; long runs place 1-2 writes at every position around every overflow; one overflow/reload for every TMA value x every value written to TIMA or TMA in and around the overflow and reload cycles"
 			c.R.Assumptions = []string{
 				"don't-cares (pruned, not judged): TIMA/TMA writes in the cycle after a cancelled reload; an increment in the same tick as a TMA-write load",
 				"TIMA after a TMA write in the reload cycle may show the old or the new value until the end of that cycle",
@@ -380,6 +388,37 @@ func init() {
 				}
 			}, func() struct{} { return struct{}{} }, c12Check)
 		c12TLCPart(c)
+		// every data value: the enumerations above use three TIMA/TMA write values; here one overflow and reload is run
+		// for every TMA value x every value written to TIMA or TMA in the overflow cycle, in the reload cycle and right after
+		explore.Product(c.R, "reload-with-every-value", explore.PartOpt{Bound: "one overflow and reload per case, every step compared", Domain: "TAC 4-7 x TMA 0-255 x {no write, TIMA<-w, TMA<-w} x w 0-255 x write placed in the overflow cycle, the reload cycle or the cycle after"},
+			func(yield func(c12Case) bool) {
+				for _, tac := range []uint8{4, 5, 6, 7} {
+					period := uint16(1) << (timerBitOf(tac) + 1)
+					for tma := 0; tma < 256; tma++ {
+						s := c12Start{Counter: period - 8, TIMA: 0xff, TMA: uint8(tma), TAC: tac}
+						ov := c12OverflowTicks(s, 64)
+						if len(ov) == 0 {
+							continue
+						}
+						if !yield(c12Case{Start: s, Path: []c12Ev{{K: "ticks", N: ov[0] + 6}}}) {
+							return
+						}
+						for _, at := range []int{0, 1, 2} { // ticks after the overflow tick
+							for _, k := range []string{"tima", "tma"} {
+								for w := 0; w < 256; w++ {
+									if tac != 5 && w%5 != 0 && w != 0xff && w != tma {
+										continue // all 256 written values for TAC=5, every fifth one for the other rates
+									}
+									path := []c12Ev{{K: "ticks", N: ov[0] + 1 + at}, {K: k, V: uint8(w)}, {K: "ticks", N: 5}}
+									if !yield(c12Case{Start: s, Path: path}) {
+										return
+									}
+								}
+							}
+						}
+					}
+				}
+			}, func() struct{} { return struct{}{} }, c12Check)
 		// long runs
 		explore.Product(c.R, "writes-around-overflows", explore.PartOpt{
 			Bound:  "1 write at every offset -3..+4 around each of the first overflows, plus a second write 0-3 cycles later; every tick compared",
